@@ -109,6 +109,85 @@ impl fmt::Debug for Op {
 pub const MODE_CONSUME: u64 = 0; // consume everything
 pub const MODE_DROP_AT: u64 = 1; // consume `prefix` items then drop the iterator
 pub const MODE_FORGET_AT: u64 = 2; // consume `prefix` items then mem::forget the iterator
+// The provided `Iterator` methods a collection may override: after `prefix` calls of `next()` the rest
+// is consumed through one of them (`for_each`, `sum`, `max`, `extend(iter)`, `collect` into another
+// collection all go through `fold`).
+pub const MODE_FOLD_AT: u64 = 3; // then fold() the rest
+pub const MODE_COUNT_AT: u64 = 4; // then count()
+pub const MODE_LAST_AT: u64 = 5; // then last()
+pub const MODE_NTH_AT: u64 = 6; // nth(prefix) first, then next() to the end
+pub const MODES_PROVIDED: [u64; 4] = [MODE_FOLD_AT, MODE_COUNT_AT, MODE_LAST_AT, MODE_NTH_AT];
+
+/// Number of `next()` calls made before `finish_iter`.
+pub fn iter_limit(mode: u64, prefix: u64) -> usize {
+    match mode {
+        MODE_CONSUME => usize::MAX,
+        MODE_NTH_AT => 0,
+        _ => prefix as usize,
+    }
+}
+/// Does the mode hand out every item?
+pub fn iter_complete(mode: u64) -> bool {
+    mode == MODE_CONSUME || mode == MODE_FOLD_AT
+}
+/// Number of items handed out in total when `total` are available.
+pub fn iter_expect(mode: u64, prefix: u64, total: usize) -> usize {
+    let p = (prefix as usize).min(total);
+    match mode {
+        MODE_CONSUME | MODE_FOLD_AT => total,
+        MODE_LAST_AT => p + (total > p) as usize,
+        MODE_NTH_AT => total - p,
+        _ => p,
+    }
+}
+/// Dispose of the rest of an iterator as the mode says; every item handed out goes to `sink`.
+/// Returns the value of `count()` in that mode.
+pub fn finish_iter<I: Iterator>(mut it: I, mode: u64, prefix: u64, sink: &mut dyn FnMut(I::Item)) -> Option<usize> {
+    match mode {
+        MODE_FORGET_AT => {
+            std::mem::forget(it);
+            None
+        }
+        MODE_FOLD_AT => {
+            it.fold((), |(), x| sink(x));
+            None
+        }
+        MODE_COUNT_AT => Some(it.count()),
+        MODE_LAST_AT => {
+            if let Some(x) = it.last() {
+                sink(x)
+            }
+            None
+        }
+        MODE_NTH_AT => {
+            if let Some(x) = it.nth(prefix as usize) {
+                sink(x)
+            }
+            for x in it.by_ref() {
+                sink(x)
+            }
+            None
+        }
+        _ => {
+            drop(it);
+            None
+        }
+    }
+}
+/// Post-conditions common to all consuming iterators: number of items handed out and `count()`.
+pub fn iter_post(what: &str, mode: u64, prefix: u64, total: usize, handed_out: usize, counted: Option<usize>) -> VResult<()> {
+    let e = iter_expect(mode, prefix, total);
+    if handed_out != e {
+        return Err(Viol::new("mismatch", format!("{} (mode {}, prefix {}) handed out {} items, expected {} of {}", what, mode, prefix, handed_out, e, total)));
+    }
+    if let Some(c) = counted {
+        let rest = total - (prefix as usize).min(total);
+        if c != rest {
+            return Err(Viol::new("mismatch", format!("{}: count() after {} items = {}, but {} were left", what, prefix, c, rest)));
+        }
+    }
+    Ok(())
+}
 pub fn iter_arg(pred: u64, mode: u64, prefix: u64) -> u64 {
     (pred & 0xFFFF_FFFF) | (mode << 32) | (prefix << 40)
 }
